@@ -1,1 +1,235 @@
-// filled in later
+//! Field-offset parser for MLSMessage (RFC 9420 section 6): yields named byte regions
+//! `(name, start, end)` for public/private messages, Welcome, GroupInfo and KeyPackage.
+//! Used to aim mutations at every validation stage and to splice fields between messages.
+
+use super::tls::{RErr, Rd};
+use super::treebytes::parse_leaf;
+
+#[derive(Clone, Debug, PartialEq, Eq)]
+pub struct Region {
+    pub name: String,
+    pub start: usize,
+    pub end: usize,
+}
+
+#[derive(Clone, Debug, PartialEq, Eq)]
+pub struct Layout {
+    pub wire_format: u16,
+    /// 1 application, 2 proposal, 3 commit (0 for non-content messages)
+    pub content_type: u8,
+    pub regions: Vec<Region>,
+    pub consumed: usize,
+}
+
+struct B<'a> {
+    r: Rd<'a>,
+    regions: Vec<Region>,
+}
+
+impl<'a> B<'a> {
+    fn mark<T>(&mut self, name: &str, f: impl FnOnce(&mut Rd<'a>) -> Result<T, RErr>) -> Result<T, RErr> {
+        let s = self.r.pos;
+        let v = f(&mut self.r)?;
+        self.regions.push(Region { name: name.into(), start: s, end: self.r.pos });
+        Ok(v)
+    }
+}
+
+fn skip_extensions(r: &mut Rd) -> Result<(), RErr> {
+    r.vbytes().map(|_| ())
+}
+
+fn skip_key_package(r: &mut Rd) -> Result<(), RErr> {
+    r.u16()?;
+    r.u16()?;
+    r.vbytes()?;
+    parse_leaf(r)?;
+    skip_extensions(r)?;
+    r.vbytes()?;
+    Ok(())
+}
+
+fn skip_psk_id(r: &mut Rd) -> Result<(), RErr> {
+    match r.u8()? {
+        1 => {
+            r.vbytes()?;
+        }
+        2 => {
+            r.u8()?;
+            r.vbytes()?;
+            r.u64()?;
+        }
+        _ => return Err(RErr::Bad("psk type")),
+    }
+    r.vbytes()?;
+    Ok(())
+}
+
+pub fn skip_proposal(r: &mut Rd) -> Result<u16, RErr> {
+    let t = r.u16()?;
+    match t {
+        1 => skip_key_package(r)?,
+        2 => {
+            parse_leaf(r)?;
+        }
+        3 => {
+            r.u32()?;
+        }
+        4 => skip_psk_id(r)?,
+        5 => {
+            r.vbytes()?;
+            r.u16()?;
+            r.u16()?;
+            skip_extensions(r)?;
+        }
+        6 => {
+            r.vbytes()?;
+        }
+        7 => skip_extensions(r)?,
+        _ => {
+            // custom proposal: opaque data<V>
+            r.vbytes()?;
+        }
+    }
+    Ok(t)
+}
+
+fn framed_content(b: &mut B) -> Result<(u8, u8), RErr> {
+    b.mark("group_id", |r| r.vbytes().map(|_| ()))?;
+    b.mark("epoch", |r| r.u64().map(|_| ()))?;
+    let sender_type = b.mark("sender", |r| {
+        let t = r.u8()?;
+        match t {
+            1 | 2 => {
+                r.u32()?;
+            }
+            3 | 4 => {}
+            _ => return Err(RErr::Bad("sender type")),
+        }
+        Ok(t)
+    })?;
+    b.mark("authenticated_data", |r| r.vbytes().map(|_| ()))?;
+    let ct = b.mark("content_type", |r| r.u8())?;
+    match ct {
+        1 => {
+            b.mark("application_data", |r| r.vbytes().map(|_| ()))?;
+        }
+        2 => {
+            b.mark("proposal", |r| skip_proposal(r).map(|_| ()))?;
+        }
+        3 => {
+            b.mark("commit.proposals", |r| r.vbytes().map(|_| ()))?;
+            let present = b.mark("commit.path_present", |r| r.u8())?;
+            if present == 1 {
+                b.mark("commit.path.leaf_node", |r| parse_leaf(r).map(|_| ()))?;
+                b.mark("commit.path.nodes", |r| r.vbytes().map(|_| ()))?;
+            } else if present != 0 {
+                return Err(RErr::Bad("optional"));
+            }
+        }
+        _ => return Err(RErr::Bad("content type")),
+    }
+    Ok((sender_type, ct))
+}
+
+fn group_info(b: &mut B) -> Result<(), RErr> {
+    b.mark("group_context", |r| {
+        r.u16()?;
+        r.u16()?;
+        r.vbytes()?;
+        r.u64()?;
+        r.vbytes()?;
+        r.vbytes()?;
+        skip_extensions(r)
+    })?;
+    b.mark("group_info.extensions", skip_extensions)?;
+    b.mark("confirmation_tag", |r| r.vbytes().map(|_| ()))?;
+    b.mark("signer", |r| r.u32().map(|_| ()))?;
+    b.mark("signature", |r| r.vbytes().map(|_| ()))?;
+    Ok(())
+}
+
+pub fn layout(msg: &[u8]) -> Result<Layout, RErr> {
+    let mut b = B { r: Rd::new(msg), regions: vec![] };
+    b.mark("version", |r| r.u16().map(|_| ()))?;
+    let wf = b.mark("wire_format", |r| r.u16())?;
+    let mut content_type = 0;
+    match wf {
+        1 => {
+            let (st, ct) = framed_content(&mut b)?;
+            content_type = ct;
+            b.mark("signature", |r| r.vbytes().map(|_| ()))?;
+            if ct == 3 {
+                b.mark("confirmation_tag", |r| r.vbytes().map(|_| ()))?;
+            }
+            if st == 1 {
+                b.mark("membership_tag", |r| r.vbytes().map(|_| ()))?;
+            }
+        }
+        2 => {
+            b.mark("group_id", |r| r.vbytes().map(|_| ()))?;
+            b.mark("epoch", |r| r.u64().map(|_| ()))?;
+            content_type = b.mark("content_type", |r| r.u8())?;
+            b.mark("authenticated_data", |r| r.vbytes().map(|_| ()))?;
+            b.mark("encrypted_sender_data", |r| r.vbytes().map(|_| ()))?;
+            b.mark("ciphertext", |r| r.vbytes().map(|_| ()))?;
+        }
+        3 => {
+            b.mark("cipher_suite", |r| r.u16().map(|_| ()))?;
+            let s = b.r.pos;
+            let mut secrets = b.r.vsub()?;
+            let base = b.r.pos - secrets.buf.len();
+            let mut i = 0;
+            while !secrets.done() {
+                let st = secrets.pos;
+                secrets.vbytes()?; // new_member ref
+                let mid = secrets.pos;
+                secrets.vbytes()?; // kem_output
+                secrets.vbytes()?; // ciphertext
+                b.regions.push(Region { name: format!("secrets[{i}].new_member"), start: base + st, end: base + mid });
+                b.regions.push(Region { name: format!("secrets[{i}].encrypted_group_secrets"), start: base + mid, end: base + secrets.pos });
+                i += 1;
+            }
+            b.regions.push(Region { name: "secrets".into(), start: s, end: b.r.pos });
+            b.mark("encrypted_group_info", |r| r.vbytes().map(|_| ()))?;
+        }
+        4 => group_info(&mut b)?,
+        5 => {
+            b.mark("key_package.version_suite", |r| {
+                r.u16()?;
+                r.u16().map(|_| ())
+            })?;
+            b.mark("key_package.init_key", |r| r.vbytes().map(|_| ()))?;
+            b.mark("key_package.leaf_node", |r| parse_leaf(r).map(|_| ()))?;
+            b.mark("key_package.extensions", skip_extensions)?;
+            b.mark("key_package.signature", |r| r.vbytes().map(|_| ()))?;
+        }
+        _ => return Err(RErr::Bad("wire format")),
+    }
+    Ok(Layout { wire_format: wf, content_type, regions: b.regions, consumed: b.r.pos })
+}
+
+impl Layout {
+    pub fn region(&self, name: &str) -> Option<&Region> {
+        self.regions.iter().find(|r| r.name == name)
+    }
+    /// name of the innermost region containing byte offset `off`
+    pub fn region_of(&self, off: usize) -> &str {
+        self.regions
+            .iter()
+            .filter(|r| r.start <= off && off < r.end)
+            .min_by_key(|r| r.end - r.start)
+            .map(|r| r.name.as_str())
+            .unwrap_or("?")
+    }
+}
+
+/// Replace region `name` of `a` by the same-named region of `b` (field splice).
+pub fn splice(a: &[u8], la: &Layout, b: &[u8], lb: &Layout, name: &str) -> Option<Vec<u8>> {
+    let ra = la.region(name)?;
+    let rb = lb.region(name)?;
+    let mut out = a[..ra.start].to_vec();
+    out.extend_from_slice(&b[rb.start..rb.end]);
+    out.extend_from_slice(&a[ra.end..]);
+    Some(out)
+}
